@@ -603,6 +603,427 @@ class StrTr(ColTr):
         return f"Definition {coqname} {ps} : {rty} :=\n{textwrap.indent(body, '  ')}.\n"
 
 
+class LoopEnd(ast.stmt):
+    """end of a loop body inside the flattened statement list: yield the carried variables"""
+    _fields = ()
+
+
+# raise AttrSpecError(f"...") sites, identified by a fragment of the message (the same table the harness uses)
+WHY = [("specified more than once", 1), ("Unrecognised color specification in background", 4),
+       ("Unrecognised color specification", 2), ("More than one color", 3), ("require more colors", 5),
+       ("invalid number of colors", 6)]
+PROPS_INT = {"colors": "attr_colors", "foreground_number": "attr_foreground_number",
+             "background_number": "attr_background_number"}
+PROPS_BOOL = ["foreground_basic", "foreground_high", "foreground_true", "background_basic", "background_high",
+              "background_true", "italics", "bold", "underline", "blink", "standout", "strikethrough"]
+TRIPLE_TABLES = ("_BASIC_COLOR_VALUES", "_COLOR_VALUES_256", "_COLOR_VALUES_88")
+
+
+class MethTr(StrTr):
+    """The methods of AttrSpec on strings.  self.__value is threaded as a state variable; mutators and
+    __init__ return `res Z` (the new value, or the exception with the number of its raise statement);
+    the describers return `result str`, get_rgb_values `result (list (option Z))`.
+    Loops `for part in s.split(","): ...` with `continue` / `raise` become a fold over the parts whose
+    state is `res` of the loop-carried variables."""
+
+    def __init__(s, consts, lists, funcs, methods):
+        super().__init__(consts, lists, funcs, None)
+        s.methods = methods        # self.<name>(...) -> (coq name, 'state' | 'desc' | 'res')
+
+    def abs_lookup(s, e, env):
+        return env["$self"] if ast.unparse(e) == "self.__value" else None
+
+    # ----- typing helpers (all state is kept in env, so that duplicated continuations do not interfere) -----
+    @staticmethod
+    def is_opt(env, name):
+        return bool(env.get("$opt:" + name, False))
+
+    def is_str(s, e, env):
+        if isinstance(e, ast.Call) and isinstance(e.func, ast.Attribute) and e.func.attr == "strip" and not e.args:
+            return s.is_str(e.func.value, env)
+        if isinstance(e, ast.Subscript) and ast.unparse(e.value) == "_BASIC_COLORS":
+            return True
+        if isinstance(e, ast.BinOp) and isinstance(e.op, ast.Mult):
+            return isinstance(e.left, ast.Constant) and isinstance(e.left.value, str)
+        if isinstance(e, ast.BoolOp) and isinstance(e.op, ast.Or):
+            return s.is_str(e.values[-1], env)
+        if isinstance(e, ast.Call) and isinstance(e.func, ast.Attribute) and ast.unparse(e.func.value) == "self" \
+                and s.methods.get(e.func.attr, ("", ""))[1] == "desc":
+            return True
+        if isinstance(e, ast.Attribute) and ast.unparse(e.value) == "self" and s.methods.get(e.attr, ("", "", ""))[1:] == ("desc", "property"):
+            return True
+        if isinstance(e, ast.Call) and ast.unparse(e.func) in s.funcs and s.funcs[ast.unparse(e.func)][1] == "result":
+            return True
+        return super().is_str(e, env)
+
+    def selfprop(s, e):
+        return e.attr if isinstance(e, ast.Attribute) and ast.unparse(e.value) == "self" else None
+
+    def sexpr(s, e, env):
+        if isinstance(e, ast.Call) and isinstance(e.func, ast.Attribute) and e.func.attr == "strip" and not e.args:
+            return f"(strip {s.sexpr(e.func.value, env)})"
+        if isinstance(e, ast.Subscript) and ast.unparse(e.value) == "_BASIC_COLORS":
+            tmp = s.newname("t")
+            s.pending.append((tmp, f"(get_index BASIC_COLORS {s.expr(e.slice, env)})"))
+            return tmp
+        if isinstance(e, ast.BinOp) and isinstance(e.op, ast.Mult) and isinstance(e.left, ast.Constant):
+            p = s.selfprop(e.right)
+            if p not in PROPS_BOOL:
+                raise Unsupported("string repetition by something that is not a boolean property")
+            return f"(times {s.lit(e.left.value)} (attr_{p} {env['$self']}))"
+        if isinstance(e, ast.BoolOp) and isinstance(e.op, ast.Or) and len(e.values) == 2:
+            l, r = e.values
+            if not (isinstance(l, ast.Call) and s.funcs.get(ast.unparse(l.func), ("", ""))[1] == "result"
+                    and ast.unparse(l.func) == "_true_to_256"):
+                raise Unsupported("`or` on strings other than _true_to_256(x) or x")
+            t = s.expr(l, env)          # hoisted: an option str
+            return f"(match {t} with Some (c_ :: r_) => c_ :: r_ | _ => {s.sexpr(r, env)} end)"
+        if isinstance(e, ast.Call) and isinstance(e.func, ast.Attribute) and ast.unparse(e.func.value) == "self":
+            cn, kind = s.methods[e.func.attr][:2]
+            if kind != "desc" or e.args:
+                raise Unsupported("call of " + e.func.attr)
+            tmp = s.newname("t")
+            s.pending.append((tmp, f"({cn} {env['$self']})"))
+            return tmp
+        if s.selfprop(e) in s.methods and s.methods[s.selfprop(e)][1] == "desc":
+            tmp = s.newname("t")
+            s.pending.append((tmp, f"({s.methods[e.attr][0]} {env['$self']})"))
+            return tmp
+        if isinstance(e, ast.Call) and ast.unparse(e.func) in s.funcs and s.funcs[ast.unparse(e.func)][1] == "result":
+            return ColTr.expr(s, e, env)       # hoisted result-valued call (a describer)
+        return super().sexpr(e, env)
+
+    def expr(s, e, env):
+        p = s.selfprop(e)
+        if ast.unparse(e) == "other._value" and "other" in env:
+            return env["other"]
+        if p in PROPS_INT:
+            return f"({PROPS_INT[p]} {env['$self']})"
+        if isinstance(e, ast.Constant) and e.value is None:
+            return "None"
+        if isinstance(e, ast.Compare) and len(e.ops) == 1 and isinstance(e.ops[0], ast.Eq) and env.get("$arith"):
+            return f"(b2z {s.bexpr(e, env)})"
+        if isinstance(e, ast.BinOp) and isinstance(e.op, ast.Mult) and isinstance(e.right, ast.Compare):
+            return f"({s.expr(e.left, env)} * (b2z {s.bexpr(e.right, env)}))"
+        if isinstance(e, ast.Call) and isinstance(e.func, ast.Attribute) and e.func.attr == "index" and len(e.args) == 1:
+            key = "$idx:" + ast.unparse(e.func.value) + ":" + ast.unparse(e.args[0])
+            if key in env:
+                return env[key]
+            raise Unsupported("index() outside the matching membership test")
+        if isinstance(e, ast.Subscript) and ast.unparse(e.value) == "_ATTRIBUTES":
+            key = "$attr:" + ast.unparse(e.slice)
+            if key in env:
+                return f"(ATTRIBUTES {env[key]})"
+            raise Unsupported("_ATTRIBUTES[x] outside `if x in _ATTRIBUTES`")
+        if isinstance(e, ast.Subscript) and ast.unparse(e.value) in TRIPLE_TABLES:
+            tmp = s.newname("t")
+            s.pending.append((tmp, f"(get_index {s.consts[ast.unparse(e.value)]} {s.expr(e.slice, env)})"))
+            return f"(opt3 {tmp})"
+        if isinstance(e, ast.Tuple) and s.kind == "optlist":
+            return s.optlist(e, env)
+        return super().expr(e, env)
+
+    def optlist(s, e, env):
+        """a tuple of `int | None` components as a list (option Z)"""
+        if isinstance(e, ast.Name):
+            return env[e.id]
+        if isinstance(e, ast.Subscript) and ast.unparse(e.value) in TRIPLE_TABLES:
+            return s.expr(e, env)
+        if isinstance(e, ast.BinOp) and isinstance(e.op, ast.Add):
+            return f"({s.optlist(e.left, env)} ++ {s.optlist(e.right, env)})"
+        if isinstance(e, ast.Tuple):
+            segs, cur = [], []
+            for x in e.elts:
+                if isinstance(x, ast.Starred):
+                    if cur:
+                        segs.append("[" + "; ".join(cur) + "]")
+                        cur = []
+                    segs.append(s.optlist(x.value, env))
+                elif isinstance(x, ast.Constant) and x.value is None:
+                    cur.append("None")
+                else:
+                    cur.append(f"Some {s.expr(x, env)}")
+            if cur:
+                segs.append("[" + "; ".join(cur) + "]")
+            return segs[0] if len(segs) == 1 else "(" + " ++ ".join(segs) + ")"
+        if isinstance(e, ast.Call) and ast.unparse(e.func) == "tuple" and len(e.args) == 1 and isinstance(e.args[0], ast.GeneratorExp):
+            g = e.args[0]
+            if len(g.generators) != 1 or g.generators[0].ifs or not isinstance(g.generators[0].iter, ast.Tuple) \
+                    or not isinstance(g.generators[0].target, ast.Name):
+                raise Unsupported("tuple(generator) that is not `for x in (a, b, ...)`")
+            var = g.generators[0].target.id
+            out = []
+            for el in g.generators[0].iter.elts:
+                env2 = dict(env)
+                env2[var] = s.sexpr(el, env)
+                env2["$str:" + var] = True
+                out.append(f"Some {s.expr(g.elt, env2)}")
+            return "[" + "; ".join(out) + "]"
+        raise Unsupported(f"tuple expression {ast.unparse(e)}")
+
+    def bexpr(s, e, env):
+        p = s.selfprop(e)
+        if p in PROPS_BOOL:
+            return f"(attr_{p} {env['$self']})"
+        if isinstance(e, ast.Compare) and len(e.ops) == 1 and isinstance(e.ops[0], (ast.In, ast.NotIn)) \
+                and isinstance(e.comparators[0], ast.Set):
+            elts = e.comparators[0].elts
+            if all(isinstance(x, ast.Constant) and isinstance(x.value, str) for x in elts):
+                x = s.sexpr(e.left, env)
+                r = "(" + " || ".join(f"str_eqb {x} {s.lit(c.value)}" for c in elts) + ")"
+            else:
+                x = s.expr(e.left, env)
+                r = "(" + " || ".join(f"({x} =? {s.expr(c, env)})" for c in elts) + ")"
+            return r if isinstance(e.ops[0], ast.In) else f"(negb {r})"
+        if isinstance(e, ast.Call) and ast.unparse(e.func) == "isinstance":
+            if ast.unparse(e) == "isinstance(other, AttrSpec)":
+                return "true"          # typing assumption: the other operand is an AttrSpec (given by its value)
+            raise Unsupported("isinstance")
+        if isinstance(e, ast.Compare) and s.kind == "bool":
+            return super().bexpr(e, env)
+        return super().bexpr(e, env)
+
+    # ----- statements -----
+    def flush(s, body):
+        pend, s.pending = s.pending, []
+        for ent in reversed(pend):
+            if len(ent) == 3:
+                body = f"match {ent[1]} with\n| Some {ent[0]} =>\n{textwrap.indent(body, '  ')}\n| None => {ent[2]}\nend"
+            elif len(ent) == 4:
+                body = f"rbind {ent[1]} (fun {ent[0]} =>\n{body})"
+            elif s.kind in ("state", "res"):
+                body = f"match {ent[1]} with\n| Ok {ent[0]} =>\n{textwrap.indent(body, '  ')}\n| Err e_ => RErr e_ 0\nend"
+            else:
+                body = f"bind {ent[1]} (fun {ent[0]} =>\n{body})"
+        return body
+
+    def default_handler(s):
+        return "RErr ValueError 0" if s.kind in ("state", "res") else "Err ValueError"
+
+    def carried_tuple(s, env):
+        vals = []
+        for name, opt in s.carried:
+            v = env[name]
+            vals.append(v if (not opt or s.is_opt(env, name)) else f"(Some {v})")
+        out = vals[0]
+        for v in vals[1:]:
+            out = f"({out}, {v})"
+        return out
+
+    def ret(s, e, env):
+        if s.kind == "optlist":
+            v = s.optlist(e, env)
+            return s.flush(f"Ok {v}")
+        if s.kind == "desc":
+            return s.flush(f"Ok {s.sexpr(e, env)}")
+        if s.kind == "bool":
+            r = s.bexpr(e, env)
+            if s.pending:
+                raise Unsupported("partial operation in a boolean method")
+            return r
+        if s.kind == "res":
+            # return self.__class__(a, b, c)
+            if isinstance(e, ast.Call) and ast.unparse(e.func) == "self.__class__":
+                return s.flush("(" + s.methods["__init__"][0] + " " + " ".join(s.expr(a, env) for a in e.args) + ")")
+        raise Unsupported("return in a method of kind " + s.kind)
+
+    def block(s, stmts, env, k=None):
+        if not stmts:
+            if s.kind == "state":
+                return f"ROk {env['$self']}"
+            raise Unsupported("control falls off the end of the method")
+        st, rest = stmts[0], list(stmts[1:])
+        if isinstance(st, ast.Expr) and isinstance(st.value, ast.Constant):
+            return s.block(rest, env)
+        if isinstance(st, LoopEnd) or isinstance(st, ast.Continue):
+            return f"ROk {s.carried_tuple(env)}"
+        if isinstance(st, ast.Return):
+            return s.ret(st.value, env)
+        if isinstance(st, ast.Raise):
+            exc = ast.unparse(st.exc.func if isinstance(st.exc, ast.Call) else st.exc)
+            if exc == "AttrSpecError":
+                msg = ast.unparse(st.exc)
+                code = next((c for frag, c in WHY if frag in msg), None)
+                if code is None or s.kind not in ("state", "res"):
+                    raise Unsupported("unknown AttrSpecError raise site: " + msg[:60])
+                return f"RErr AttrSpecError {code}"
+            if exc == "ValueError":
+                return "RErr ValueError 0" if s.kind in ("state", "res") else "Err ValueError"
+            raise Unsupported("raise " + exc)
+        if isinstance(st, ast.AugAssign):
+            st = ast.Assign(targets=[st.target], value=ast.BinOp(left=copy.deepcopy(st.target), op=st.op, right=st.value))
+            for n in ast.walk(st.value.left):
+                if hasattr(n, "ctx"):
+                    n.ctx = ast.Load()
+        if isinstance(st, ast.Assign):
+            if len(st.targets) != 1:
+                raise Unsupported("chained assignment")
+            t = st.targets[0]
+            if ast.unparse(t) == "self.__value":
+                env1 = dict(env)
+                env1["$arith"] = True
+                val = s.expr(st.value, env1)
+                nm = s.newname("v")
+                env2 = dict(env)
+                env2["$self"] = nm
+                return s.after(f"let {nm} := {val} in\n", rest, env2)
+            if not isinstance(t, ast.Name):
+                raise Unsupported("assignment target " + ast.unparse(t))
+            env2 = dict(env)
+            nm = s.newname(t.id)
+            env2[t.id] = nm
+            for key in ("$opt:", "$str:", "$olist:"):
+                env2.pop(key + t.id, None)
+            v = st.value
+            if isinstance(v, ast.Constant) and v.value is None:
+                val = "(@None Z)"
+                env2["$opt:" + t.id] = True
+            elif isinstance(v, ast.Name) and s.is_opt(env, v.id):
+                val = env[v.id]
+                env2["$opt:" + t.id] = True
+            elif s.kind == "optlist" and not s.is_str(v, env) and (isinstance(v, (ast.Tuple,)) or
+                    (isinstance(v, ast.Subscript) and ast.unparse(v.value) in TRIPLE_TABLES) or
+                    (isinstance(v, ast.Call) and ast.unparse(v.func) == "tuple")):
+                val = s.optlist(v, env)
+                env2["$olist:" + t.id] = True
+            elif s.is_str(v, env):
+                val = s.sexpr(v, env)
+                env2["$str:" + t.id] = True
+            else:
+                val = s.expr(v, env)
+                if isinstance(v, ast.Call) and s.funcs.get(ast.unparse(v.func), ("", ""))[1] == "result-opt":
+                    env2["$opt:" + t.id] = True
+            return s.after(f"let {nm} := {val} in\n", rest, env2)
+        if isinstance(st, ast.Expr) and isinstance(st.value, ast.Call) and isinstance(st.value.func, ast.Attribute) \
+                and ast.unparse(st.value.func.value) == "self":
+            name = st.value.func.attr
+            name = name if name in s.methods else "__" + name.lstrip("_")
+            cn, kind = s.methods[name][:2]
+            if kind != "state":
+                raise Unsupported("statement call of " + name)
+            args = " ".join(s.expr(a, env) for a in st.value.args)
+            nm = s.newname("v")
+            env2 = dict(env)
+            env2["$self"] = nm
+            s.pending.append((nm, f"({cn} {env['$self']} {args})", "rbind", None))
+            return s.after("", rest, env2)
+        if isinstance(st, ast.If):
+            return s.if_stmt(st, rest, env)
+        if isinstance(st, ast.For):
+            return s.for_stmt(st, rest, env)
+        if isinstance(st, (ast.Try, EndTry)):
+            return super().block(stmts, env)
+        raise Unsupported(f"statement {type(st).__name__}: {ast.unparse(st)[:60]}")
+
+    def if_stmt(s, st, rest, env):
+        test = st.test
+        body, orelse = list(st.body) + rest, list(st.orelse) + rest
+        # x in _ATTRIBUTES  /  x in _BASIC_COLORS : a lookup whose result the branch may use
+        if isinstance(test, ast.Compare) and len(test.ops) == 1 and isinstance(test.ops[0], ast.In) \
+                and isinstance(test.comparators[0], ast.Name) and test.comparators[0].id in ("_ATTRIBUTES", "_BASIC_COLORS"):
+            x = s.sexpr(test.left, env)
+            tbl = test.comparators[0].id
+            nm = s.newname("a" if tbl == "_ATTRIBUTES" else "i")
+            env_t = dict(env)
+            if tbl == "_ATTRIBUTES":
+                env_t["$attr:" + ast.unparse(test.left)] = nm
+                scrut = f"find_setting ATTRIBUTE_NAMES {x}"
+            else:
+                env_t["$idx:_BASIC_COLORS:" + ast.unparse(test.left)] = nm
+                scrut = f"str_index BASIC_COLORS {x}"
+            pend, s.pending = s.pending, []
+            tb, eb = s.block(body, env_t), s.block(orelse, env)
+            s.pending = pend
+            return s.flush(f"match {scrut} with\n| Some {nm} =>\n{textwrap.indent(tb, '  ')}\n| None =>\n{textwrap.indent(eb, '  ')}\nend")
+        # x is None / x is not None
+        if isinstance(test, ast.Compare) and len(test.ops) == 1 and isinstance(test.ops[0], (ast.Is, ast.IsNot)) \
+                and ast.unparse(test.comparators[0]) == "None" and isinstance(test.left, ast.Name):
+            var = test.left.id
+            none_b, some_b = (body, orelse) if isinstance(test.ops[0], ast.Is) else (orelse, body)
+            if not s.is_opt(env, var):
+                return s.block(some_b, env)          # statically an int / a string here
+            payload = s.newname(var)
+            env_some = dict(env)
+            env_some[var] = payload
+            env_some.pop("$opt:" + var, None)
+            if env.get("$optstr:" + var):
+                env_some["$str:" + var] = True
+            pend, s.pending = s.pending, []
+            sb, nb = s.block(some_b, env_some), s.block(none_b, env)
+            s.pending = pend
+            return s.flush(f"match {env[var]} with\n| Some {payload} =>\n{textwrap.indent(sb, '  ')}\n| None =>\n{textwrap.indent(nb, '  ')}\nend")
+        prefix = ""
+        cond = s.bexpr(test, env)
+        pend, s.pending = s.pending, []
+        tb, eb = s.block(body, env), s.block(orelse, env)
+        s.pending = pend
+        return s.flush(f"if {cond} then\n{textwrap.indent(tb, '  ')}\nelse\n{textwrap.indent(eb, '  ')}")
+
+    def for_stmt(s, st, rest, env):
+        it = st.iter
+        if not (isinstance(it, ast.Call) and isinstance(it.func, ast.Attribute) and it.func.attr == "split"
+                and len(it.args) == 1 and isinstance(it.args[0], ast.Constant) and isinstance(it.args[0].value, str)
+                and len(it.args[0].value) == 1 and isinstance(st.target, ast.Name) and not st.orelse):
+            raise Unsupported("loop other than `for x in s.split(c)`")
+        if s.kind != "state":
+            raise Unsupported("loop in a method that cannot raise AttrSpecError")
+        names = sorted(n for n in s.assigned(st.body) if n in env and n != st.target.id)
+        if not names:
+            raise Unsupported("loop without carried variables")
+        carried = [(n, s.is_opt(env, n)) for n in names]
+        saved = getattr(s, "carried", None)
+        s.carried = carried
+        init = s.carried_tuple(env)
+        env_b = dict(env)
+        pat_names = []
+        for n, opt in carried:
+            nm = s.newname(n)
+            env_b[n] = nm
+            pat_names.append(nm)
+        part = s.newname(st.target.id)
+        env_b[st.target.id] = part
+        env_b["$str:" + st.target.id] = True
+        pend, s.pending = s.pending, []
+        body = s.block(list(st.body) + [LoopEnd()], env_b)
+        s.carried = saved
+        env_r = dict(env)
+        out_names = []
+        for n, opt in carried:
+            nm = s.newname(n)
+            env_r[n] = nm
+            out_names.append(nm)
+        restb = s.block(rest, env_r)
+        s.pending = pend
+
+        def pat(ns):
+            out = ns[0]
+            for n in ns[1:]:
+                out = f"({out}, {n})"
+            return out
+        sep = ord(it.args[0].value)
+        loop = (f"fold_left (fun st_ {part} => rbind st_ (fun '{pat(pat_names)} =>\n{textwrap.indent(body, '  ')}))\n"
+                f"  (split_on {sep} {s.sexpr(it.func.value, env)}) (ROk {init})")
+        return s.flush(f"rbind ({loop}) (fun '{pat(out_names)} =>\n{restb})")
+
+    def method(s, fn, params, coqname, kind):
+        """params: [(python name, coq name, coq type)] after self; the state parameter v comes first"""
+        s.kind, s.checked, s.pending, s.strdefs = kind, True, [], {}
+        env = {"$self": "v", "$handler": s.default_handler()}
+        for p, c, t in params:
+            env[p] = c
+            if t == "str":
+                env["$str:" + p] = True
+            if t.startswith("option"):
+                env["$opt:" + p] = True
+                if t == "option str":
+                    env["$optstr:" + p] = True
+        body = s.block(list(fn.body), env)
+        rty = {"state": "res Z", "res": "res Z", "desc": "result str", "optlist": "result (list (option Z))",
+               "bool": "bool"}[kind]
+        ps = " ".join(f"({c} : {t})" for _, c, t in params)
+        return f"Definition {coqname} (v : Z) {ps} : {rty} :=\n{textwrap.indent(body, '  ')}.\n"
+
+
 def module_assign(tree, name):
     for n in tree.body:
         if isinstance(n, ast.Assign) and len(n.targets) == 1 and isinstance(n.targets[0], ast.Name) and n.targets[0].id == name:
@@ -714,4 +1135,32 @@ def generate(repo):
                      ("_parse_color_true", "opt")):
         out.append(st().function(find(tree, py), [("desc", "d", "str")], cname(py) + "_s", kind))
         sfuncs[py] = (cname(py) + "_s", "result-opt" if kind == "opt" else "result")
+    # ---------------- the methods of AttrSpec on strings ----------------
+    out.append("(* ===== AttrSpec methods (self.__value threaded as v; raise sites numbered as in Base/ColourBase.v) ===== *)")
+    methods = {}
+
+    def mt():
+        return MethTr(consts, lists, sfuncs, methods)
+    out.append(mt().method(find_method(tree, "AttrSpec", "__set_foreground"), [("foreground", "foreground", "str")],
+                           "set_foreground_gen", "state"))
+    methods["__set_foreground"] = ("set_foreground_gen", "state")
+    out.append(mt().method(find_method(tree, "AttrSpec", "__set_background"), [("background", "background", "str")],
+                           "set_background_gen", "state"))
+    methods["__set_background"] = ("set_background_gen", "state")
+    init = find_method(tree, "AttrSpec", "__init__")
+    body = mt().method(init, [("fg", "fg", "str"), ("bg", "bg", "str"), ("colors", "colors", "Z")], "attrspec_init_gen", "state")
+    # the constructor starts from no value at all: drop the state parameter
+    out.append(body.replace("Definition attrspec_init_gen (v : Z) ", "Definition attrspec_init_gen ", 1))
+    methods["__init__"] = ("attrspec_init_gen", "res")
+    out.append(mt().method(find_method(tree, "AttrSpec", "_foreground_color"), [], "foreground_color_gen", "desc"))
+    methods["_foreground_color"] = ("foreground_color_gen", "desc")
+    out.append(mt().method(find_method(tree, "AttrSpec", "foreground"), [], "foreground_gen", "desc"))
+    methods["foreground"] = ("foreground_gen", "desc", "property")
+    out.append(mt().method(find_method(tree, "AttrSpec", "background"), [], "background_gen", "desc"))
+    methods["background"] = ("background_gen", "desc", "property")
+    out.append(mt().method(find_method(tree, "AttrSpec", "get_rgb_values"), [], "get_rgb_values_gen", "optlist"))
+    out.append(mt().method(find_method(tree, "AttrSpec", "copy_modified"),
+                           [("fg", "fg", "option str"), ("bg", "bg", "option str"), ("colors", "colors", "option Z")],
+                           "copy_modified_gen", "res"))
+    out.append(mt().method(find_method(tree, "AttrSpec", "__eq__"), [("other", "other", "Z")], "attrspec_eq_gen", "bool"))
     return REL + " urwid/util.py", "\n".join(out)
